@@ -14,6 +14,9 @@ CHECK = {
         "naive backend: a file rewritten in place between UploadFile's digest pass and upload pass may be left out of the result (upload fails), but no blob may be stored under a digest that its bytes do not hash to",
         "LocalBuildExecutor rig: execution time-outs never fire (fake clock); the fake runner creates stdout/stderr like bb_runner; input roots contain no special files",
         "naive backend: a real local file system under the driver's per-run scratch directory; virtual backend: FUSE handle allocator, case-sensitive names, sorted listings, in-memory file pool",
+        "ASSUMPTION beyond the statement (matches the code's documented behaviour 'Even when errors occur, the remainder of the output files is still uploaded'): when UploadOutputs / Execute ends with an error, every existing declared output that the failure did not hit must still be listed exactly; an injected storage or directory failure (1 case in 3 of the hierarchy_model rigs: one CAS Put, Lstat, ReadDir, Readlink, Enter or UploadFile call fails, or the context is cancelled at a Put) excuses only the entry whose upload it hit (file being uploaded; output directory whose Tree/Directory message was refused; entry and subtree whose Lstat/ReadDir/Readlink/Enter failed), must surface as an error, and nothing may be listed whose blobs are not in the CAS. ENOENT is never injected (documented as 'absent')",
+        "stdout_digest / stderr_digest are set iff the stream is non-empty (the code documents that empty streams get no digest; an explicit digest of the empty blob is accepted too) and name that stream's bytes; *_raw, if a future executor inlines it, must equal the stream",
+        "entries of the build directory documented by the code: root, tmp, server_logs (Execute) and stdout, stderr (runner); a rejected command may leave only root behind",
     ],
     "tests": [
         # (a) OutputHierarchy against the in-memory tree.
